@@ -18,7 +18,7 @@ ASSUMPTIONS = ["<= 5 inputs (all 3^n patterns), <= 14 gates, gates up to 9 opera
 def gen(rng, tier):
     style = rng.choice(("plain", "plain", "underscore"))
     net = G.gen_net(rng, n_inputs=(1, 5), n_gates=(1, 14) if rng.random() < 0.2 else (1, 10), types=G.swarm_types(rng),
-                    max_arity=rng.randint(6, 9) if rng.random() < 0.15 else rng.randint(2, 5),
+                    max_arity=rng.randint(8, 11) if rng.random() < 0.15 else rng.randint(2, 5),
                     constants=0.35, name_style=style, input_outputs=0.1, parity_bias=rng.choice((0.0, 0.3)))
     if rng.random() < 0.3:
         # names that look like (or are stems / case variants of) the helper names ternary() creates, so that a
